@@ -15,5 +15,5 @@ def units(ctx):
         McUnit("batchwriter", "BatchedWriter", "", name="BatchedWriter:spec", thorough_only=True),
         # forced schedules (TLC's counterexamples replayed through the verif yield points) + free-running producers;
         # every recorded execution of the real writer is validated by TLC against the API-level spec
-        TraceUnit("batchwriter", "BatchedWriter", "bwdrive", args=["-traces", 60], thorough_args=["-traces", 600], sut="BatchedWriter"),
+        TraceUnit("batchwriter", "BatchedWriter", "bwdrive", args=["-traces", 60, "-controlled", 40], thorough_args=["-traces", 600, "-controlled", 600], sut="BatchedWriter"),
     ]
